@@ -116,14 +116,13 @@ func (c *DefaultMatcher) Match(args []reflect.Value) bool {
 	if c.isMethod {
 		args = args[1:]
 	}
-	if c.isVariadic {
-		// 可变参数需要展开参数数组
-		expandArgs := make([]reflect.Value, 0)
-		for _, v := range args {
-			rv := reflect.ValueOf(v.Interface())
-			for i := 0; i < rv.Len(); i++ {
-				expandArgs = append(expandArgs, rv.Index(i))
-			}
+	if c.isVariadic && len(args) > 0 {
+		// 可变参数需要展开参数数组, 只有最后一个参数是可变参数数组, 前面的固定参数保持不变
+		expandArgs := make([]reflect.Value, 0, len(args))
+		expandArgs = append(expandArgs, args[:len(args)-1]...)
+		rv := reflect.ValueOf(args[len(args)-1].Interface())
+		for i := 0; i < rv.Len(); i++ {
+			expandArgs = append(expandArgs, rv.Index(i))
 		}
 		args = expandArgs
 	}
